@@ -68,7 +68,7 @@ package session
 // delSession: tells the client to drop the session id and removes it from the request.
 //@ func (*Session).delSession
 //@   requires has-config: s.ctx == nil || s.config != nil
-//@   modifies rqHdrHas, hdrCnt, jarHas, jarVal, jarAttr, ckKey, ckVal, ckAttr, jcPath, jcExp, jcPooled
+//@   modifies rqHdrHas, hdrCnt, rhLine, jarHas, jarVal, jarAttr, ckKey, ckVal, ckAttr, jcPath, jcExp, jcPooled
 //@   atcall @fasthttp.(*RequestHeader).Del: request-header-removed: h == reqCk(s) && key == sessName(s)
 //@   atcall @fasthttp.(*ResponseHeader).Del: response-header-removed: key == sessName(s) && called(@fasthttp.(*RequestHeader).Del)
 //@   atcall @fasthttp.(*RequestHeader).DelCookie: request-cookie-removed: h == reqCk(s) && key == sessName(s)
